@@ -401,7 +401,35 @@ pub fn description_states(thorough: bool, seeds: u64) -> (Vec<String>, Vec<(Stri
             }
         }
     }
-    info.push(("D-rec(recursive enum with k<=3 self references in one variant, reached r<=3 times, via Box/Vec/Option<Box>)".into(), rec, rec, true));
+    // ... and enums WITHOUT a leaf variant (every variant leads back into the cycle): one-variant `Onion`, a
+    // two-variant one, and a mutually recursive pair, each through Box / Vec
+    for via in [Label::Boxed, Label::Vec] {
+        let wrap = |t: Ty| match via {
+            Label::Boxed => Ty::Box(b(t)),
+            _ => Ty::Vec(b(t)),
+        };
+        let onion1 = Def::enm(&["g", "t"], "Onion", &[], vec![variant("Layer", Fields::Unnamed(vec![Field::new(wrap(Ty::Named(0, vec![])))]))]);
+        let onion2 = Def::enm(
+            &["g", "t"],
+            "Onion",
+            &[],
+            vec![
+                variant("Layer", Fields::Unnamed(vec![Field::new(wrap(Ty::Named(0, vec![])))])),
+                variant("Pair", Fields::Named(vec![("l".into(), Field::new(wrap(Ty::Named(0, vec![])))), ("r".into(), Field::new(wrap(Ty::Named(0, vec![]))))])),
+            ],
+        );
+        let ping = Def::enm(&["g", "t"], "Ping", &[], vec![variant("Many", Fields::Unnamed(vec![Field::new(wrap(Ty::Named(1, vec![])))]))]);
+        let pong = Def::enm(&["g", "t"], "Pong", &[], vec![variant("Back", Fields::Unnamed(vec![Field::new(Ty::Tuple(vec![U8, wrap(Ty::Named(0, vec![]))]))]))]);
+        for defs in [vec![onion1.clone()], vec![onion2.clone()], vec![ping.clone(), pong.clone()]] {
+            let prog = Program {
+                defs,
+                roots: vec![Ty::Named(0, vec![])],
+            };
+            states.push(js(json!({"prog": serde_json::to_value(prog).unwrap(), "seeds": seeds})));
+            rec += 1;
+        }
+    }
+    info.push(("D-rec(recursive enum with k<=3 self references in one variant, reached r<=3 times, via Box/Vec/Option<Box>; enums without a leaf variant, self- and mutually recursive)".into(), rec, rec, true));
     // D-samename: two definitions with one identifier in different modules (anything remembered per name
     // instead of per id / full path confuses them), every ordered pair of six bodies, both visited from one root
     let mut same = 0u64;
